@@ -198,6 +198,27 @@ def generate(rng, n, tier="quick"):
         case["id"] = "%s-s%05d" % (ID, k)
         k += 1
         out.append((case, {"mode": "strict", "expect": expect_pair(x, None), "cmp": True}))
+    # the SAME operand twice (one path given twice, or two spellings of one place): the answer is that of the pair (v, v) – for a
+    # null, an array or an object all four order helpers say no, although `eq` says yes
+    SAME = [("a", "a"), ("a", "@root.a"), ("this.a", "./a"), ("a", "this.[a]")]
+    for v in vs:
+        for sx, sy in SAME:
+            tpl = TPL.replace(" a ", " %s " % sx).replace(" b}}", " %s}}" % sy)
+            case = session({"escape": "none"}, [], {"api": "render_template", "src": tpl}, {"a": v})
+            case["id"] = "%s-m%05d" % (ID, k)
+            k += 1
+            out.append((case, {"mode": "same", "expect": expect_pair(v, v), "cmp": compare_json(v, v) is not None}))
+        tpl = "{{#with a}}" + TPL.replace(" a ", " this ").replace(" b}}", " this}}") + "{{/with}}"
+        if truthy(v):
+            case = session({"escape": "none"}, [], {"api": "render_template", "src": tpl}, {"a": v})
+            case["id"] = "%s-m%05d" % (ID, k)
+            k += 1
+            out.append((case, {"mode": "same", "expect": expect_pair(v, v), "cmp": compare_json(v, v) is not None}))
+        tpl = "{{#each l}}" + TPL.replace(" a ", " this ").replace(" b}}", " this}}") + "{{/each}}"
+        case = session({"escape": "none"}, [], {"api": "render_template", "src": tpl}, {"l": [v]})
+        case["id"] = "%s-m%05d" % (ID, k)
+        k += 1
+        out.append((case, {"mode": "same", "expect": expect_pair(v, v), "cmp": compare_json(v, v) is not None}))
     # random near-equal integer / float pairs
     for j in range(n):
         r = rng.fork(j)
